@@ -57,6 +57,28 @@ Definition C11_fires : Prop :=
     let s := run pre C sched (init C) in
     quiescent pre C s -> returned s = true.
 
+(* the kept blocks in front of position (file i, Read k): everything that can have been
+   delivered when the pipeline cannot get past that position *)
+Definition before_site (L : layout) (i k : nat) : list blk :=
+  flat_map (kept L) (seq 0 i) ++ filter (keep L i) (firstn k (file_of L i)).
+
+Definition site_limit_blocks (C : cfg) : option (list blk) :=
+  let L := c_lay C in
+  match c_fault C with
+  | FExists i | FOpen i | FHeader i => Some (before_site L i 0)
+  | FRead i k => if Nat.leb k (length (file_of L i)) then Some (before_site L i k) else None
+  | _ => None
+  end.
+
+(* ---- c11_bound ----
+   the pipeline cannot get past the fault site: whatever was delivered lies in front of it
+   (storage-level sites), and at most n+1 calls were made when the n-th call fails *)
+Definition C11_bound : Prop :=
+  forall pre C sched, fixed C ->
+    let s := run pre C sched (init C) in
+    (forall l, site_limit_blocks C = Some l -> prefix (s_calls s) (pairs pre l)) /\
+    (forall n, c_fault C = FHandler n -> (length (s_calls s) <= S n)%nat).
+
 (* ---- c11_error ----
    When Run has returned, Err() is set and identifies the cause: it is the class of the
    injected fault, or nil from the outside Shutdown, or — the fault having had no effect on
